@@ -26,6 +26,7 @@ structure Adv where
   tick : Nat := 0         -- virtual time that passes inside the work function before it acts
   act : WorkAct
   workOk : Bool
+  resultNone : Bool := false   -- the work function returned exactly `None` (only the cell's `output` shows it)
   val : ValOut
 
 /-- what happened, in order -/
@@ -156,7 +157,7 @@ def cellExecute (s : Sys) (op : Nat) (prio : Int) (req : List Nat) (adv : Adv) (
       { sys := r.sys, success := false, blockedByCoordination := false, hasOutput := false, coordAttached := false
         tracked := false, coord := r }
     | _ =>
-      { sys := r.sys, success := true, blockedByCoordination := false, hasOutput := true, coordAttached := true
+      { sys := r.sys, success := true, blockedByCoordination := false, hasOutput := !adv.resultNone, coordAttached := true
         tracked := false, coord := r }
   else
     { sys := r.sys, success := false, blockedByCoordination := true, hasOutput := false, coordAttached := true
